@@ -103,6 +103,9 @@ MUTATIONS = [
  ('m78', 'C05', 'src/dynamics/transformed_hamiltonian.rs', r's/        if !math\.array_all_finite\(&self\.untransformed_gradient\) \{\n            return false;\n        \}\n        if !math\.array_all_finite\(&self\.untransformed_position\) \{\n            return false;\n        \}\n        true\n    \}\n\n    fn check_all/        if math.array_all_finite(\&self.untransformed_gradient) {\n            return false;\n        }\n        if !math.array_all_finite(\&self.untransformed_position) {\n            return false;\n        }\n        true\n    }\n\n    fn check_all/', 'check_untransformed accepts exactly the non-finite gradients (mutation campaign)'),
  ('m79', 'C06', 'src/chain.rs', r's/            draw_count: 0,/            draw_count: 1,/', 'a new NUTS chain starts counting draws at 1 (mutation campaign)'),
  ('m80', 'C07', 'src/stepsize/adapt.rs', r's/    pub fn update_estimator_early\(&mut self\) \{\n        match self\.adaptation\.as_mut\(\) \{\n            None => \{\}\n            Some\(Either::Left\(adapt\)\) => \{\n                adapt\.advance\(self\.last_mean_tree_accept,/    pub fn update_estimator_early(\&mut self) {\n        match self.adaptation.as_mut() {\n            None => {}\n            Some(Either::Left(adapt)) => {\n                adapt.advance(self.last_sym_mean_tree_accept,/', 'early dual-averaging updates are fed the symmetric statistic'),
+ ('m81', 'C08', 'src/transform/adapt/low_rank.rs', r's/let sigma = \(draw_var \/ grad_var\)\.sqrt\(\)\.sqrt\(\);/let sigma = (draw_var \/ grad_var).sqrt();/', 'low-rank rescaling uses the variance ratio\'s square root instead of its fourth root'),
+ ('m82', 'C08', 'src/transform/adapt/low_rank.rs', r's/mu\[row\] = draw_mean \+ sigma \* sigma \* grad_mean;/mu[row] = draw_mean - sigma * sigma * grad_mean;/', 'low-rank translation moves away from the mode'),
+ ('m83', 'C08', 'src/transform/adapt/low_rank.rs', r's/            \.for_each\(\|v\| \*v = \(\*v\) \* grad_scale\);/            .for_each(|v| *v = (*v) * draw_scale);/', 'low-rank rescaling divides the gradients by sigma'),
  ('e19', 'C07', 'src/stepsize/adapt.rs', r's/let dir = if accept_stat > self\.options\.target_accept \{/let dir = if accept_stat >= self.options.target_accept {/', 'NOT A VIOLATION: a tie between the first trial and the target is resolved the other way'),
  ('e20', 'C05', 'src/external_adapt_strategy.rs', r's/            if energy_error > self\.max_energy_error \{\n                return;\n            \}\n\n            if !math\.array_all_finite\(point\.position\(\)\) \{\n                return;\n            \}\n            if !math\.array_all_finite\(point\.gradient\(\)\) \{\n                return;\n            \}\n\n            self\.draws\.push\(math\.copy_array\(point\.position\(\)\)\);\n            self\.grads\.push\(math\.copy_array\(point\.gradient\(\)\)\);\n            self\.logps\.push\(point\.logp\(\)\);\n        \}\n    \}\n\n    fn register_draw/            if energy_error >= self.max_energy_error {\n                return;\n            }\n\n            if !math.array_all_finite(point.position()) {\n                return;\n            }\n            if !math.array_all_finite(point.gradient()) {\n                return;\n            }\n\n            self.draws.push(math.copy_array(point.position()));\n            self.grads.push(math.copy_array(point.gradient()));\n            self.logps.push(point.logp());\n        }\n    }\n\n    fn register_draw/', 'NOT A VIOLATION: an energy error exactly at the limit is dropped by the flow collector'),
  ('e21', 'C05', 'src/transform/adapt/diagonal.rs', r's/self\.is_good = idx\.abs\(\) > 4;/self.is_good = idx.abs() > 6;/', 'NOT A VIOLATION: divergent draws are rejected a little further from the start'),
